@@ -1919,6 +1919,73 @@ def numeric_case(rnd, dist):
     return hist_line(options(rnd, dist), history(rnd, texts, dist), texts)
 
 
+# ------------------------------------------------------------------ (i-e) modules that are only on the search path
+
+def fs_case(rnd, dist):
+    """a loaded module that refers to a module which is not in the set but lies on the search path (op D<i>),
+    optionally behind an import / include that cannot be satisfied at all, with and without Process"""
+    refs = rnd.sample(["typedef", "leaf-type", "uses", "identity", "identityref", "augment", "deviation", "leafref", "extension",
+                       "union-member", "feature"], rnd.choice([1, 1, 2, 3]))
+    for r in refs:
+        dist["search-path:reference:" + r] += 1
+    body = []
+    for r in refs:
+        body.append({
+            "typedef": "typedef load { type t:percent; } leaf l1 { type load; }",
+            "leaf-type": "leaf l2 { type t:percent { range 1..5; } }",
+            "uses": "container c1 { uses t:g; }",
+            "identity": "identity mine { base t:idbase; }",
+            "identityref": "leaf l3 { type identityref { base t:idbase; } }",
+            "augment": "augment /t:tc { leaf az { type string; } }",
+            "deviation": "deviation /t:tc/t:tl { deviate add { default d; } }",
+            "leafref": "leaf l4 { type leafref { path \"/t:tc/t:tl\"; } }",
+            "extension": "t:ext \"arg\"; leaf l5 { type string { t:ext x; } }",
+            "union-member": "typedef u { type union { type string; type t:percent; } } leaf l6 { type u; }",
+            "feature": "leaf l7 { if-feature t:tf; type string; }",
+        }[r])
+    disk_kind = rnd.choice(["good", "good", "good", "good", "imports-loaded", "imports-absent", "syntax-error", "other-name",
+                            "revisioned-file", "in-subdirectory", "has-submodule-on-disk"])
+    dist["search-path:file:" + disk_kind] += 1
+    tbody = ('typedef percent { type uint8 { range "0..100"; } } grouping g { leaf gl { type percent; } } identity idbase; feature tf; '
+             'extension ext { argument a; } container tc { leaf tl { type string; } }')
+    extra = {"imports-loaded": "import a { prefix a; } ", "imports-absent": "import nowhere { prefix n; } ",
+             "has-submodule-on-disk": "include tsub; "}.get(disk_kind, "")
+    ttext = 'module types {\n  namespace "urn:types";\n  prefix t;\n  %srevision 2020-01-01;\n  %s\n}\n' % (extra, tbody)
+    if disk_kind == "syntax-error":
+        ttext = ttext.rstrip()[:-1] + ' leaf "'
+    if disk_kind == "other-name":
+        ttext = ttext.replace("module types", "module something-else")
+    tname = {"revisioned-file": "types@2020-01-01.yang", "in-subdirectory": "sub/dir/types.yang"}.get(disk_kind, "types.yang")
+    before = rnd.choice(["none", "none", "absent-import", "absent-import", "absent-include", "absent-import-with-revision"])
+    dist["search-path:before-it:" + before] += 1
+    pre = {"none": "", "absent-import": "import absent { prefix x; } ", "absent-include": "include absent-sub; ",
+           "absent-import-with-revision": "import absent { prefix x; revision-date 2020-01-01; } "}[before]
+    imp = "import types { prefix t; %s} " % ("revision-date 2020-01-01; " if rnd.random() < 0.2 else "")
+    after = "import absent2 { prefix y; } " if rnd.random() < 0.15 else ""
+    atext = 'module a {\n  namespace "urn:a";\n  prefix a;\n  %s%s%s\n  %s\n}\n' % (pre, imp, after, "\n  ".join(body))
+    texts = [("a.yang", atext), (tname, ttext)]
+    if disk_kind == "has-submodule-on-disk":
+        texts.append(("tsub.yang", "submodule tsub { belongs-to types { prefix t; } typedef st { type t:percent; } }\n"))
+    unit = rnd.choice(["module", "module", "submodule"])
+    if unit == "submodule":           # the referring unit is a submodule whose module is loaded as well
+        texts[0] = ("a.yang", atext.replace("module a {", "submodule asub {").replace('namespace "urn:a";\n  prefix a;', "belongs-to a { prefix a; }"))
+        texts.append(("amod.yang", 'module a { namespace "urn:a"; prefix a; %s}\n' % rnd.choice(["include asub; ", ""])))
+    d = ["D%d" % i for i in range(1, len(texts)) if texts[i][0] != "amod.yang"]
+    loads = ["L0"] + ["L%d" % i for i in range(len(texts)) if texts[i][0] == "amod.yang"]
+    style = rnd.choice(["process", "process", "process", "process-twice", "reads-without-process", "parse-read-process",
+                        "getmodule", "file-appears-later", "also-loaded"])
+    dist["search-path:history:" + style] += 1
+    ops = d + loads + {"process": ["P"], "process-twice": ["P", "P"], "reads-without-process": ["R"],
+                       "parse-read-process": ["R", "P", "R"], "getmodule": ["G0"], "file-appears-later": [],
+                       "also-loaded": ["L1", "P"]}[style]
+    if style == "file-appears-later":
+        ops = loads + ["P"] + d + ["P", "R"]
+    opts = options(rnd, dist, "cnufqexr")
+    if disk_kind == "in-subdirectory" and "r" not in opts and rnd.random() < 0.7:
+        opts = (opts.replace("-", "") + "r")
+    return hist_line(opts, ",".join(ops), texts)
+
+
 # ------------------------------------------------------------------ (i-c) small texts whose naive processing blows up
 
 def module_text(name, body, imports=()):
@@ -2105,6 +2172,8 @@ def gen_chunk(arg):
         cases.append(("schema-paths", path_case(rnd, dist)))
     for _ in range(max(1, npaths // 2)):
         cases.append(("numeric-strings", numeric_case(rnd, dist)))
+    for _ in range(max(1, npaths // 2)):
+        cases.append(("search-path", fs_case(rnd, dist)))
     for _ in range(nmut):
         r = rnd.random()
         if r < 0.35 and groups:
@@ -2512,7 +2581,9 @@ def run(res, tier, seed, proof):
         "testing, not proof: crash-freedom of the Go code is established only for the histories executed; the theorems "
         "of Properties/C01.v are about the Gallina models (lexer, parser, AST builder, number / range / enum functions)",
         "reads are done right after a Process (the documented order); ToEntry before the first Process is not exercised",
-        "the harness child runs with an empty module search path in an empty directory (FindModule's file fallback finds nothing)",
+        "the harness children run in an empty directory with an empty module search path, except for the search-path family, "
+        "whose files are written by the case itself (op D) into a directory of its own that is put on the path; the same family "
+        "is the only one that reads trees (ToEntry) without a Process in between",
         "runtime limits (Go stack size, heap, scheduler, GC) are outside every model: nesting is kept to %s levels, grouping "
         "towers to 2^9 copies; the one listed input beyond that (D13) is run in the thorough tier only"
         % ("3000" if tier == "quick" else "20000"),
